@@ -284,8 +284,22 @@ let expand_actions (ops : symop array) flags ivs (rs : string list) : action lis
         | _ -> [{ aop = o; resolved = (String.get flags i = 'r'); obs; a_s; a_e }]) (Array.to_list ops)))
   with _ -> None
 
-let oracle touch cap has_enf (prefix : symop list) (ops : symop array) (outs : string list) : string =
+let rec split_byp = function
+  | [] -> ([], None)
+  | "BYP" :: rest -> ([], Some rest)
+  | x :: rest -> let (a, b) = split_byp rest in (x :: a, b)
+
+let rec oracle touch cap has_enf (prefix : symop list) (ops : symop array) ?(all_blocked = false) (outs : string list) : string =
   let n = Array.length ops in
+  let (outs, byp) = split_byp outs in
+  match byp with
+  | Some (iv :: rest) when all_blocked && List.length rest = n + 1 ->
+      (* the model says this schedule's last pick must block; the implementation went on and was run to
+         completion under control: judge that execution *)
+      let flags = match outs with _ :: f :: _ -> f | _ -> String.make n '-' in
+      let v = oracle touch cap has_enf prefix ops (["fin"; flags; iv] @ rest @ ["ids=ok"]) in
+      if v = "ok" then oracle touch cap has_enf prefix ops outs else v ^ "-after-bypassed-lock"
+  | _ ->
   match outs with
   | "PANIC" :: _ -> "fail:panic"
   | ["crash"] -> "fail:process-crashed"
@@ -297,7 +311,7 @@ let oracle touch cap has_enf (prefix : symop list) (ops : symop array) (outs : s
       else if List.mem "err" rs then "fail:operation-failed"
       else if List.exists (fun r -> String.length r > 3 && String.sub r 0 3 = "err") rs then "fail:operation-failed"
       else if ids <> "ids=ok" then "fail:duplicate-id"
-      else if status <> "fin" && status <> "bypassed" then "ok"
+      else if status <> "fin" then "ok"
       else if List.exists2 (fun o r -> match o with SAdd _ -> r <> "id" | _ -> false) (Array.to_list ops) rs then "fail:delivery-without-id"
       else if has_enf then "ok"
       else begin
@@ -407,13 +421,15 @@ let eval_mode () =
            let st = mem_init cap maxkb prefix ops in
            let res = eval_all mem_machine ops (fresh mem_machine st ops) sched in
            let alts = dedup (List.map (fun o -> String.concat " " (render mem_machine ops o)) res) in
-           let verdict = oracle true cap (maxkb > 0) prefix ops outs in
+           let all_blocked = res <> [] && List.for_all (fun (s, _) -> match s with Blocked _ -> true | _ -> false) res in
+           let verdict = oracle true cap (maxkb > 0) prefix ops ~all_blocked outs in
            print_string (String.concat " || " alts); print_string " ## "; print_string verdict; print_char '\n')
         (fun g prefix ops sched outs ->
            let st = file_init g prefix ops in
            let res = eval_all file_machine ops (fresh file_machine st ops) sched in
            let alts = dedup (List.map (fun o -> String.concat " " (render file_machine ops o)) res) in
-           let verdict = oracle false 0 false prefix ops outs in
+           let all_blocked = res <> [] && List.for_all (fun (s, _) -> match s with Blocked _ -> true | _ -> false) res in
+           let verdict = oracle false 0 false prefix ops ~all_blocked outs in
            print_string (String.concat " || " alts); print_string " ## "; print_string verdict; print_char '\n')
     with
     | Not_found when (let (k, _, _) = Mlutil.split_case line in k = "stress") ->
